@@ -154,6 +154,7 @@ type BuiltTable struct {
 	IShape  fmtb.IndexShape // WITHOUT ROWID tables
 	Rows    []Row           // sorted by rowid (rowid tables)
 	Entries []Entry         // sorted by key (WITHOUT ROWID tables)
+	PKKey   []refcmp.KeyCol // the key's effective comparison attributes (WITHOUT ROWID tables)
 	Indexes map[string]*BuiltIndex
 }
 
@@ -216,12 +217,25 @@ func Build(spec *Image) (res *Built, err error) {
 	}()
 	b := fmtb.NewBuilder(spec.PageSize, spec.Layout)
 	out := &Built{Tables: map[string]*BuiltTable{}}
+	// Files with a schema format before 4 ignore DESC: every index (and
+	// WITHOUT ROWID key) is stored ascending whatever its definition says.
+	legacy := spec.Header.SchemaFormat >= 1 && spec.Header.SchemaFormat <= 3
+	keyCols := func(coll []string, desc []bool, n int) []refcmp.KeyCol {
+		k := keyCols(coll, desc, n)
+		if legacy {
+			for i := range k {
+				k[i].Desc = false
+			}
+		}
+		return k
+	}
 	var objs []fmtb.Object
 	for ti := range spec.Tables {
 		t := &spec.Tables[ti]
 		bt := &BuiltTable{Spec: t, Indexes: map[string]*BuiltIndex{}}
 		if t.WithoutRowid {
 			key := keyCols(t.PKColl, t.PKDesc, t.PKCols)
+			bt.PKKey = key
 			for i, r := range t.Rows {
 				bt.Entries = append(bt.Entries, Entry{Values: r.Values(), Row: i})
 			}
@@ -251,7 +265,7 @@ func Build(spec *Image) (res *Built, err error) {
 					}
 					if !dup {
 						extra = append(extra, k)
-						bi.Key = append(bi.Key, refcmp.KeyCol{Collate: at(t.PKColl, k), Desc: atb(t.PKDesc, k)})
+						bi.Key = append(bi.Key, refcmp.KeyCol{Collate: at(t.PKColl, k), Desc: atb(t.PKDesc, k) && !legacy})
 					}
 				}
 				for ri, r := range t.Rows {
@@ -410,7 +424,8 @@ func SQLiteAgrees(o *oracle.Oracle, dir string, built *Built) (string, error) {
 		if t.WithoutRowid {
 			var ob []string
 			for i := 0; i < t.PKCols; i++ {
-				ob = append(ob, idxColSQL(i, at(t.PKColl, i), atb(t.PKDesc, i)))
+				// (the effective direction: DESC is ignored in files of a schema format before 4)
+				ob = append(ob, idxColSQL(i, at(t.PKColl, i), i < len(bt.PKKey) && bt.PKKey[i].Desc))
 			}
 			got, err := o.Query("btc", "SELECT "+strings.Join(cols, ", ")+" FROM "+t.Name+" ORDER BY "+strings.Join(ob, ", "))
 			if err != nil {
